@@ -199,10 +199,12 @@ func (s *Server) Session(strm signaling.SRPCSignaling_SessionStream) error {
 		// Verify signature on message and that the source peer matches.
 		_, msgPeerId, err := sendMsg.ExtractAndVerify()
 		if err != nil {
+			verifSessionReject("sendrej", strm, "verify")
 			return errors.Errorf("signaling: failed to verify signed msg: %v", err.Error())
 		}
 		msgPeerIdStr := msgPeerId.String()
 		if msgPeerIdStr != srcPeerIDStr {
+			verifSessionReject("sendrej", strm, "sender")
 			return errors.Errorf("signaling: outgoing msg peer id mismatch: %v != expected %v", msgPeerId, srcPeerIDStr)
 		}
 
